@@ -307,7 +307,10 @@ psf_fseek (SF_PRIVATE *psf, sf_count_t offset, int whence)
 {	sf_count_t	absolute_position ;
 
 	if (psf->virtual_io)
-		return psf->vio.seek (offset, whence, psf->vio_user_data) ;
+	{	absolute_position = psf->vio.seek (offset, whence, psf->vio_user_data) ;
+		psf->file.seek_failed = (absolute_position < 0) ;
+		return absolute_position ;
+		} ;
 
 	/* When decoding from pipes sometimes see seeks to the pipeoffset, which appears to mean do nothing. */
 	if (psf->is_pipe)
@@ -334,6 +337,8 @@ psf_fseek (SF_PRIVATE *psf, sf_count_t offset, int whence)
 		} ;
 
 	absolute_position = lseek (psf->file.filedes, offset, whence) ;
+
+	psf->file.seek_failed = (absolute_position < 0) ;
 
 	if (absolute_position < 0)
 		psf_log_syserr (psf, errno) ;
@@ -391,6 +396,11 @@ psf_fwrite (const void *ptr, sf_count_t bytes, sf_count_t items, SF_PRIVATE *psf
 	ssize_t	count ;
 
 	if (bytes == 0 || items == 0)
+		return 0 ;
+
+	/* After a failed seek the file position is not where the caller wants it :
+	** writing there would destroy data written earlier. */
+	if (psf->file.seek_failed)
 		return 0 ;
 
 	if (psf->virtual_io)
@@ -950,7 +960,10 @@ psf_fseek (SF_PRIVATE *psf, sf_count_t offset, int whence)
 	DWORD dwError ;
 
 	if (psf->virtual_io)
-		return psf->vio.seek (offset, whence, psf->vio_user_data) ;
+	{	new_position = psf->vio.seek (offset, whence, psf->vio_user_data) ;
+		psf->file.seek_failed = (new_position < 0) ;
+		return new_position ;
+		} ;
 
 	switch (whence)
 	{	case SEEK_SET :
@@ -975,6 +988,8 @@ psf_fseek (SF_PRIVATE *psf, sf_count_t offset, int whence)
 		dwError = GetLastError () ;
 	else
 		dwError = NO_ERROR ;
+
+	psf->file.seek_failed = (dwError != NO_ERROR) ;
 
 	if (dwError != NO_ERROR)
 	{	psf_log_syserr (psf, dwError) ;
@@ -1030,6 +1045,11 @@ psf_fwrite (const void *ptr, sf_count_t bytes, sf_count_t items, SF_PRIVATE *psf
 {	sf_count_t total = 0 ;
 	ssize_t	count ;
 	DWORD dwNumberOfBytesWritten ;
+
+	/* After a failed seek the file position is not where the caller wants it :
+	** writing there would destroy data written earlier. */
+	if (psf->file.seek_failed)
+		return 0 ;
 
 	if (psf->virtual_io)
 		return psf->vio.write (ptr, bytes * items, psf->vio_user_data) / bytes ;
